@@ -141,20 +141,55 @@ theorem mkCtx_period (H : List (Candle K)) (c : Candle K) (name key : String) (o
     simp [a, this]
 
 
-/-- **one EMA call inside a series.** -/
+
+/-- the stored EMA column over an input column `x` that starts at index `o`: `None` before index
+`o + p − 1`, the rounded mean of `x o … x (o+p−1)` there, then the rounded recurrence on the stored
+predecessor (all roundings to `defaultRound = 4` decimals: a helper's `round_value`) -/
+def emaColF (p o : Nat) (x : Nat → K) : Nat → K :=
+  recSt defaultRound (emaAlpha p) (rsum p (fun k => x (o + k)) / p) x (o + p)
+
+def emaCol (p o : Nat) (x : Nat → K) : Nat → Val K :=
+  recStV defaultRound (emaAlpha p) (rsum p (fun k => x (o + k)) / p) x (o + p)
+
+/-- the textbook EMA of the column: seeded at `o + p − 1` with the plain mean of the first `p`
+inputs, then `r j = a·x j + (1 − a)·r (j−1)`, `a = 2/(p+1)` -/
+def emaColExact (p o : Nat) (x : Nat → K) : Nat → K :=
+  recExact (emaAlpha p) (winMean x p (o + p - 1)) x (o + p)
+
+theorem emaCol_none (p o : Nat) (x : Nat → K) (j : Nat) (h : j + 1 < o + p) : emaCol p o x j = .none := by
+  unfold emaCol recStV; rw [if_pos h]
+
+theorem emaCol_flt (p o : Nat) (x : Nat → K) (j : Nat) (h : o + p ≤ j + 1) :
+    emaCol p o x j = .flt (emaColF p o x j) := by
+  unfold emaCol recStV emaColF; rw [if_neg (by omega)]
+
+/-- the stored column is the textbook EMA up to `ε₄/a` -/
+theorem emaCol_ok (p o : Nat) (hp : 1 ≤ p) (x : Nat → K) (j : Nat) :
+    RecOK (o + p) defaultRound (emaAlpha p) (emaColExact p o x) j (emaCol p o x j) := by
+  unfold emaColExact emaCol
+  rw [winMean_eq x p o hp]
+  exact recStV_ok _ _ _ _ _ (by omega) (emaAlpha_pos p) (emaAlpha_le_one p hp) j
+
+theorem emaColF_err (p o : Nat) (hp : 1 ≤ p) (x : Nat → K) (j : Nat) :
+    |emaColF p o x j - emaColExact p o x j| ≤ eps K defaultRound / emaAlpha p := by
+  unfold emaColExact emaColF
+  rw [winMean_eq x p o hp]
+  exact recSt_err _ _ _ _ _ (by omega) (emaAlpha_pos p) (emaAlpha_le_one p hp) j
+
+/-- **one EMA call inside a series.**  The call at index `H.length` on `H ++ [c]`, reading an input
+column `g` that is `None` exactly below index `o`, with the own column so far equal to `emaCol` -/
 theorem ema_view_step (H : List (Candle K)) (c : Candle K) (own inp : String) (p o : Nat) (hp : 2 ≤ p)
-    (rn : Nat → Num K)
-    (hH : ∀ j, j < H.length → readingByCandle (H.getD j default) inp = if j < o then .none else .num (rn j))
-    (hc : readingByCandle c inp = if H.length < o then .none else .num (rn H.length))
+    (g : Nat → Val K) (rn : Nat → Num K)
+    (hH : ∀ j, j < H.length → readingByCandle (H.getD j default) inp = g j)
+    (hc : readingByCandle c inp = g H.length)
+    (hnone : ∀ j, j ≤ H.length → (g j).isNone = decide (j < o))
+    (hseed : H.length + 1 = o + p → ∀ k, k < p → g (o + k) = .num (rn (o + k)))
+    (hcur : o + p ≤ H.length → g H.length = .num (rn H.length))
     (hprev : Ctx.lastReading own H = if H.length = 0 then .none else
-      recStV defaultRound (emaAlpha p) (rsum p (fun k => (rn (o + k)).toF) / p) (fun j => (rn j).toF) (o + p)
-        (H.length - 1)) :
+      emaCol p o (fun j => (rn j).toF) (H.length - 1)) :
     ∃ v, Calc.ema (mkCtx H c own) (p : Int) inp (fl 2) = .ok v ∧
-      v.roundBy defaultRound
-        = recStV defaultRound (emaAlpha p) (rsum p (fun k => (rn (o + k)).toF) / p) (fun j => (rn j).toF) (o + p)
-            H.length := by
-  have hrd : ∀ j, j ≤ H.length → (mkCtx H c own).reading inp (some (j : Int))
-      = .ok (if j < o then .none else .num (rn j)) := by
+      v.roundBy defaultRound = emaCol p o (fun j => (rn j).toF) H.length := by
+  have hrd : ∀ j, j ≤ H.length → (mkCtx H c own).reading inp (some (j : Int)) = .ok (g j) := by
     intro j hj
     rw [mkCtx_reading H c own inp j hj]
     by_cases h : j < H.length
@@ -162,8 +197,7 @@ theorem ema_view_step (H : List (Candle K)) (c : Candle K) (own inp : String) (p
     · have : j = H.length := by omega
       subst this
       rw [if_neg h, hc]
-  have hper := mkCtx_period H c own inp o (fun j => if j < o then .none else .num (rn j)) hrd
-    (by intro j _; by_cases h : j < o <;> simp [h]) p (by omega)
+  have hper := mkCtx_period H c own inp o g hrd hnone p (by omega)
   have hpr : (mkCtx H c own).prevReading (mkCtx H c own).name = .ok (Ctx.lastReading own H) :=
     Ctx.prevReading_append_cons H c [] own own
   have hp1 : (((p : Nat) : Int) : K) + 1 ≠ 0 := by
@@ -175,20 +209,17 @@ theorem ema_view_step (H : List (Candle K)) (c : Candle K) (own inp : String) (p
       by_cases h0 : H.length = 0
       · simp [h0]
       · simp only [h0, if_false]
-        unfold recStV
-        rw [if_pos (by omega)]
+        exact congrArg _ (emaCol_none _ _ _ _ (by omega))
     have hrp : (mkCtx H c own).readingPeriod (p : Int) inp = false := by
       rw [hper]; simp; omega
     refine ⟨.none, ema_none _ _ _ _ hpn hrp, ?_⟩
-    unfold recStV
-    rw [if_pos h1]; rfl
+    rw [emaCol_none _ _ _ _ h1]; rfl
   · by_cases h2 : H.length + 1 = o + p
     · have hpn : (mkCtx H c own).prevReading (mkCtx H c own).name = .ok .none := by
         rw [hpr, hprev]
         have h0 : H.length ≠ 0 := by omega
         simp only [h0, if_false]
-        unfold recStV
-        rw [if_pos (by omega)]
+        exact congrArg _ (emaCol_none _ _ _ _ (by omega))
       have hrp : (mkCtx H c own).readingPeriod (p : Int) inp = true := by
         rw [hper]; simp; omega
       have hwin := ema_seed_window (mkCtx H c own) p inp (fl 2) (fun k => rn (o + k)) hpn hrp (by omega)
@@ -197,29 +228,100 @@ theorem ema_view_step (H : List (Candle K)) (c : Candle K) (own inp : String) (p
           intro j hj
           have e : (mkCtx H c own).i + 1 - (p : Int) + (j : Int) = ((o + j : Nat) : Int) := by
             show (H.length : Int) + 1 - (p : Int) + (j : Int) = _; omega
-          rw [e, hrd (o + j) (by omega), if_neg (by omega)])
+          rw [e, hrd (o + j) (by omega), hseed h2 j hj])
       refine ⟨_, hwin, ?_⟩
-      unfold recStV
-      rw [if_neg (by omega), recSt_seed _ _ _ _ _ _ (by omega)]
+      rw [emaCol_flt _ _ _ _ (by omega)]
+      unfold emaColF
+      rw [recSt_seed _ _ _ _ _ _ (by omega)]
       rfl
     · have h3 : o + p ≤ H.length := by omega
       have h0 : H.length ≠ 0 := by omega
       have hpn : (mkCtx H c own).prevReading (mkCtx H c own).name
-          = .ok (.num (.flt (recSt defaultRound (emaAlpha p) (rsum p (fun k => (rn (o + k)).toF) / p)
-              (fun j => (rn j).toF) (o + p) (H.length - 1)))) := by
+          = .ok (.num (.flt (emaColF p o (fun j => (rn j).toF) (H.length - 1)))) := by
         rw [hpr, hprev]
         simp only [h0, if_false]
-        unfold recStV
-        rw [if_neg (by omega)]
-      have hcur : (mkCtx H c own).reading inp = .ok (.num (rn H.length)) := by
+        exact congrArg _ (emaCol_flt _ _ _ _ (by omega))
+      have hcur' : (mkCtx H c own).reading inp = .ok (.num (rn H.length)) := by
         have := hrd H.length (le_refl _)
-        rw [if_neg (by omega)] at this
+        rw [hcur h3] at this
         exact this
-      refine ⟨_, ema_rec _ _ _ _ _ _ hpn hcur hp1, ?_⟩
-      unfold recStV
-      rw [if_neg (by omega), recSt_step _ _ _ _ _ _ h3 (by omega)]
+      refine ⟨_, ema_rec _ _ _ _ _ _ hpn hcur' hp1, ?_⟩
+      rw [emaCol_flt _ _ _ _ (by omega)]
+      unfold emaColF
+      rw [recSt_step _ _ _ _ _ _ h3 (by omega)]
       simp only [fl_two_toF, Num.toF_flt, Int.cast_natCast]
       rfl
+
+/-! ### the candles of a MACD row -/
+
+/-- the candle after the two helper writes -/
+def macdC2 (nm : String) (vf vs : Val K) (c : Candle K) : Candle K :=
+  setKey true (nm ++ "_EMA_slow") vs (setKey true (nm ++ "_EMA_fast") vf c)
+
+/-- the finished candle of a MACD row: helper readings `vf`, `vs` and (if written) the signal-line
+reading `d` in `.sub_indicators`, the own dict `own` in `.indicators` -/
+def macdC3 (nm : String) (vf vs : Val K) (d : Option (Val K)) (own : Val K) (c : Candle K) : Candle K :=
+  setKey false nm own (setD (nm ++ "_signal_line") d (macdC2 nm vf vs c))
+
+section cand
+variable (nm : String) (hn : MacdNames nm) (vf vs own : Val K) (d : Option (Val K)) (c : Candle K)
+
+theorem c1_input (input : String) (hin : NoDot input ∧ input ∈ Candle.attrNames) :
+    readingByCandle (setKey true (nm ++ "_EMA_fast") vf c) input = readingByCandle c input :=
+  indep_attr (F := K) _ input hin.1 hin.2 true vf c
+
+theorem c3_input (input : String) (hin : NoDot input ∧ input ∈ Candle.attrNames) :
+    readingByCandle (macdC3 nm vf vs d own c) input = readingByCandle c input := by
+  unfold macdC3 macdC2
+  rw [indep_attr (F := K) nm input hin.1 hin.2]
+  cases d with
+  | none => simp only [setD]; rw [indep_attr (F := K) _ input hin.1 hin.2, indep_attr (F := K) _ input hin.1 hin.2]
+  | some dv =>
+    simp only [setD]
+    rw [indep_attr (F := K) _ input hin.1 hin.2, indep_attr (F := K) _ input hin.1 hin.2,
+      indep_attr (F := K) _ input hin.1 hin.2]
+
+theorem c3_bare : (macdC3 nm vf vs d own c).bare = c.bare := by
+  unfold macdC3 macdC2
+  cases d <;> simp only [setD, bare_setKey]
+
+include hn
+
+theorem c2_fast (hc : Plain c) : readingByCandle (macdC2 nm vf vs c) (nm ++ "_EMA_fast") = vf := by
+  rw [readingByCandle_key _ hn.kF]
+  obtain ⟨hi, hs⟩ := hc
+  simp [macdC2, lookupKey, setKey, hi, hs, dset, dlookup, hn.FS]
+
+theorem c2_slow (hc : Plain c) : readingByCandle (macdC2 nm vf vs c) (nm ++ "_EMA_slow") = vs := by
+  rw [readingByCandle_key _ hn.kS]
+  obtain ⟨hi, hs⟩ := hc
+  simp [macdC2, lookupKey, setKey, hi, hs, dset, dlookup, hn.FS]
+
+theorem c3_fast (hc : Plain c) : readingByCandle (macdC3 nm vf vs d own c) (nm ++ "_EMA_fast") = vf := by
+  rw [readingByCandle_key _ hn.kF]
+  obtain ⟨hi, hs⟩ := hc
+  cases d <;> simp [macdC3, macdC2, lookupKey, setD, setKey, hi, hs, dset, dlookup, hn.FS, hn.nF, hn.FG, hn.FG.symm]
+
+theorem c3_slow (hc : Plain c) : readingByCandle (macdC3 nm vf vs d own c) (nm ++ "_EMA_slow") = vs := by
+  rw [readingByCandle_key _ hn.kS]
+  obtain ⟨hi, hs⟩ := hc
+  cases d <;> simp [macdC3, macdC2, lookupKey, setD, setKey, hi, hs, dset, dlookup, hn.FS, hn.nS, hn.SG, hn.SG.symm]
+
+theorem c3_sig (hc : Plain c) :
+    readingByCandle (macdC3 nm vf vs d own c) (nm ++ "_signal_line") = d.getD .none := by
+  rw [readingByCandle_key _ hn.kG]
+  obtain ⟨hi, hs⟩ := hc
+  cases d <;> simp [macdC3, macdC2, lookupKey, setD, setKey, hi, hs, dset, dlookup, hn.FG, hn.FG.symm, hn.nG,
+    hn.SG, hn.SG.symm]
+
+theorem c3_own (hc : Plain c) : readingByCandle (macdC3 nm vf vs d own c) nm = own := by
+  rw [readingByCandle_key _ hn.kN]
+  simp [macdC3, lookupKey, setKey, dset, dlookup_dset_self]
+
+theorem c3_macd : readingByCandle (macdC3 nm vf vs d own c) (nm ++ ".MACD") = own.nested "MACD" :=
+  rbc_tmp nm hn.dot own _
+
+end cand
 
 end Numeric
 end Hex
